@@ -3597,17 +3597,15 @@ impl LineBuf {
 				let Some((start,end)) = self.range_from_motion(&motion) else {
 					return Ok(())
 				};
-				self.insert_at(start, '\t');
-				let mut range_indices = self.grapheme_indices()[start..end].to_vec().into_iter();
-				while let Some(idx) = range_indices.next() {
-					let gr = self.grapheme_at(idx).unwrap();
-					if gr == "\n" {
-						let Some(idx) = range_indices.next() else {
-							self.push('\t');
-							break
-						};
-						self.insert_at(idx, '\t');
+				// Line starts inside the range, as grapheme indices; inserted last first so they stay valid
+				let mut line_starts = vec![start];
+				for idx in start..end {
+					if self.grapheme_at(idx) == Some("\n") && idx + 1 < end {
+						line_starts.push(idx + 1);
 					}
+				}
+				for idx in line_starts.into_iter().rev() {
+					self.insert_at(idx, '\t');
 				}
 
 				match motion {
@@ -3626,14 +3624,9 @@ impl LineBuf {
 				if self.grapheme_at(start) == Some("\t") {
 					indices_to_remove.push(start);
 				}
-				let mut range_indices = self.grapheme_indices()[start..end].to_vec().into_iter();
-				while let Some(idx) = range_indices.next() {
-					let Some(gr) = self.grapheme_at(idx) else { break };
-					if gr == "\n" {
-						let Some(idx) = range_indices.next() else { break };
-						if self.grapheme_at(idx) == Some("\t") {
-							indices_to_remove.push(idx);
-						}
+				for idx in start..end {
+					if self.grapheme_at(idx) == Some("\n") && idx + 1 < end && self.grapheme_at(idx + 1) == Some("\t") {
+						indices_to_remove.push(idx + 1);
 					}
 				}
 
